@@ -38,7 +38,7 @@ TARGETS = [
     "sigma.validation:SigmaValidator.validate_rules",
 ]
 BOUNDS = {
-    "modelled sources": "4 iteration orders of every set created by a set()/frozenset() call in sigma.* and of regex flag sets; 4 draws of random.choices",
+    "modelled sources": "4 (quick) / 8 (thorough) iteration orders of every set created by a set()/frozenset() call in sigma.* and of regex flag sets; 4 draws of random.choices",
     "corpus": "12 items: one-to-many field mappings (incl. repeated targets and nested pipelines), add_condition, filters, regex flags with supported/unsupported flags, correlation rule fields with and without group-by, error texts (unknown correlation condition keys, unreferenced pipeline conditions, strict field mapping failure, collection errors), validator issue texts",
     "outside": "actual PYTHONHASHSEED randomisation / process starts (only the 3-seed subprocess self-check); set displays and comprehensions (reported by the AST scan, not permuted)",
 }
@@ -219,11 +219,11 @@ def check(item: int, mode: int, draw: int) -> bool:
 def c20_modes(item: int, mode: int, draw: int) -> bool:
     """
     pre: 0 <= item < NITEMS
-    pre: 0 <= mode < 4
+    pre: 0 <= mode < P("MODES", 4)
     pre: 0 <= draw < 4
     post: _
     """
-    i, m, d = sel(item, NITEMS), sel(mode, 4), sel(draw, 4)
+    i, m, d = sel(item, NITEMS), sel(mode, 8), sel(draw, 4)
     with concrete_section():
         ok = check(i, m, d)
     return fin(ok)
@@ -262,7 +262,7 @@ def c20_subprocess_seeds() -> bool:
     return len(outs) == 1
 
 
-OBLIGATIONS = [Ob("c20_modes", {}, 900)]
+OBLIGATIONS = [Ob("c20_modes", {}, 900), Ob("c20_modes", {"MODES": 8}, 1800, tier="thorough")]
 
 SELFCHECKS = [
     ("c20_modes", {}, (0, 1, 1), True),
